@@ -6,3 +6,4 @@ INVARIANT InvRoundTrip
 INVARIANT InvInjective
 INVARIANT InvIdLen
 INVARIANT InvLossless
+INVARIANT InvUpdate
